@@ -46,13 +46,15 @@ Init == \E f \in Flows : \E call \in Calls[f] : \E k \in Kinds(call), l \in Lack
           /\ (k \in {"azp_number", "azp_list_numbers"} => TRUE)
 Next == UNCHANGED c
 
+\* "answeredAgain": once the provider is healthy again the same browser's next request is answered (whatever the answer), i.e. the proxy
+\* "keeps handling other requests" also for the session the failed exchange concerned;
 \* "created": a session cookie was handed out / the request was served as authenticated from the failed exchange;
 \* "extended": the stored session carries tokens from the failed exchange
 CaseRec == [fam |-> "idpfaults", in |-> c,
             \* pkceOK (C05 under faults): every redemption attempt the provider saw - answered with the fault, or repeated by the proxy -
             \* carried the verifier of the challenge that login's authorization request carried (S256 is configured throughout)
-            req |-> (IF Tolerated(c.flow, c.call, c.kind) THEN [panic |-> FALSE, nextOK |-> TRUE, pkceOK |-> TRUE]
-                     ELSE [created |-> FALSE, extended |-> FALSE, panic |-> FALSE, nextOK |-> TRUE, pkceOK |-> TRUE]
+            req |-> (IF Tolerated(c.flow, c.call, c.kind) THEN [panic |-> FALSE, nextOK |-> TRUE, pkceOK |-> TRUE, answeredAgain |-> TRUE]
+                     ELSE [created |-> FALSE, extended |-> FALSE, panic |-> FALSE, nextOK |-> TRUE, pkceOK |-> TRUE, answeredAgain |-> TRUE]
                           \* (control against vacuity: with the keys available the same session IS re-validated and served)
                           @@ (IF c.flow = "validate" THEN [controlServed |-> TRUE] ELSE <<>>))]
 EmitVocab == JsonSerialize("vocab.json", Vocab)
